@@ -119,6 +119,31 @@ CLAIMED = {
                 'mode is not explored.',
  },
 
+ 'C12': {
+  'engine'    : 'bfs',
+  'category'  : 'model_checking',
+  'design_ref': 'DESIGN.md 4 (C12)',
+  'technique' : 'explicit-state search (BFS with state merging) over event '
+                'histories on the real scheduler handlers, ledger oracle',
+  'text'      : 'Bare RoundRobin and Backfilling tmgr schedulers are driven '
+                'through their real work_cb()/work(), _control_cb -> '
+                'control_cb(add_pilots/remove_pilots) and _base_state_cb '
+                '(pilot and task state notifications, singly and in pairs) '
+                'for every event history up to depth 6 (thorough 8) over 7 '
+                'task sets (named/unnamed pilots, 1/4/8 cores).  A ledger of '
+                'added/removed pilots and of pushes to input staging checks: '
+                'each task forwarded at most once and as soon as an eligible '
+                'pilot exists, named tasks only to their pilot after it was '
+                'added, others only to currently added pilots, all sandboxes '
+                'set under the pilot sandbox, round-robin spread within a '
+                'batch, backfilling eligibility window, high-water mark and '
+                'usage figure back to zero.',
+  'note'      : '2 pilots x 4 cores, <= 4 tasks; the pilot-state reference is '
+                'the monotone maximum of the notifications sent; exceptions '
+                'escaping a handler are treated as the subscriber thread '
+                'treats them (logged), their consequences show in the ledger.',
+ },
+
  'C13': {
   'engine'    : 'enum',
   'category'  : 'exploration',
@@ -181,6 +206,33 @@ CLAIMED = {
                 'trajectories of a reduced state chain; "reached" follows the '
                 'linear state model (a later state implies the earlier was '
                 'reached), as wait_tasks documents.',
+ },
+
+ 'C18': {
+  'engine'    : 'enum',
+  'category'  : 'exploration',
+  'design_ref': 'DESIGN.md 4 (C18)',
+  'technique' : 'exhaustive bounded enumeration of allocations, node-file '
+                'shapes, agent layouts and reachability answers on the real '
+                'resource managers against an independent model',
+  'text'      : 'Every case creates the real ResourceManager (SLURM, PBSPRO, '
+                'TORQUE, LSF, COBALT, FORK, CCM) through ResourceManager.create '
+                'in a temp cwd with a generated environment and node file, an '
+                'in-memory registry and a fake reachability probe, over two '
+                'complete products: presentation x hardware (1-4 hosts, lines '
+                'per node/core/thread, grouped/interleaved, SLURM expressions, '
+                'LSF pseudo nodes, exec_vnode, cores 2-4, SMT 1-2, GPUs 0-2, '
+                'blocked cores/GPUs) and layout (requested nodes, backup nodes '
+                'with all 3^n probe answers, 0-2 node sub-agents, services).  '
+                'Oracle: one entry per usable allocated node, unique indices, '
+                'configured cores/GPUs with exactly the blocked ones DOWN, '
+                'disjoint from agent/service lists of configured size, '
+                '1..requested entries; a second instance built from the '
+                'registry entry has an equal info.',
+  'note'      : 'Refusals (raise) are legitimate outcomes and only checked '
+                'for offering nothing; hand-written expansions of SLURM node '
+                'list expressions are trusted; qstat answers are an '
+                'environment choice.',
  },
 
  'C19': {
